@@ -5,10 +5,13 @@ func init() {
 		cfgs := []*HarnessCfg{
 			{Name: "VerifC07_Crash", Pkg: pebPkg, Solver: "z3", MaxPaths: 2000000, EngineReplay: true},
 		}
+		// a longer write history on one ID: it is added twice (solver-chosen, possibly identical index keys),
+		// then updated; the store is then restarted (cleanly or by power loss)
+		cfgs = append(cfgs, &HarnessCfg{Name: "VerifC07_Crash", Pkg: pebPkg, Solver: "z3", MaxPaths: 2000000, EngineReplay: true, Params: map[string]int64{"samehist": 1}})
 		c.Assumptions = append(c.Assumptions, pebbleAssumptions...)
 		c.Assumptions = append(c.Assumptions,
 			"crash points are at the granularity of the store's own commits (batch.Commit / db.Set): the machine dies just before the k-th commit of the interrupted mutation, k in {0,1,none}; commits made with pebble.Sync survive, others are lost; crash points inside Pebble (WAL, manifest, individual file-system calls) are NOT covered - that part of the property is outside this technique",
-			"pre-state: up to 1 signature; mutations: add/update, batch add, delete, false-positive mark, rebuild (two commits for this bound; the 1000-entry chunk boundary is not reached)",
+			"pre-state: up to 1 signature with a solver-chosen ID, or (second configuration) one ID that was added twice with solver-chosen, possibly identical, index keys and is then updated and the store restarted without a crash inside the call; mutations: add/update, batch add, delete, false-positive mark, rebuild (two commits for this bound; the 1000-entry chunk boundary is not reached)",
 			"native replays can only realise 'no crash'; a counterexample that needs a mid-mutation crash is confirmed by concrete re-execution of the code's SSA with the model's values")
 		c.runModeT([]string{"pkg/storage/pebbledb"}, cfgs)
 	}
